@@ -60,10 +60,11 @@ var properties = map[string]*Property{
 		ID:    "C05",
 		Title: "Statement control flow is executed exactly as in Go",
 		Units: []Unit{
-			{Kind: "funcs", Pkg: "fast", Funcs: []string{"(*Comp).jumpOut", "(*Comp).Goto"}},
+			{Kind: "funcs", Pkg: "fast", Funcs: []string{"(*Comp).jumpOut", "(*Comp).Goto", "(*Comp).rangeString"}},
 		},
 		NotCovered: []string{
-			"if / for / switch / type switch / select / range layout and their closures, break and continue label resolution (Comp.Break, Comp.Continue), fallthrough, jump tables (switchGotoSlice/Map, typecaseHelper)",
+			"range over a string: only the frame of each closure (what it may write, and that the direct store is chosen only for an int32 slot) - not the iteration itself (utf8 decoding, order, termination)",
+			"if / for / switch / type switch / select / other range forms: layout and closures, break and continue label resolution (Comp.Break, Comp.Continue), fallthrough, jump tables (switchGotoSlice/Map, typecaseHelper)",
 			"forward goto (documented limitation of the interpreter)",
 			"Goto is stated for labels at most two scopes around the goto (the search loop itself is verified for any depth)",
 			"composition into whole programs (paper induction)",
